@@ -483,6 +483,57 @@ func propC17(cx *sim.Ctx) {
 		return false
 	}
 	// (ii) bytes entry points against parse-then-locate
+	// plainLeafMissing: some scalar that a filter-less target selects (and that no selected container holds) got no
+	// callback. The known incompleteness of filter targets concerns the containers they collect; a leaf is never
+	// collected, so a leaf that a plain target selects must arrive whatever filter targets are listed beside it.
+	plainLocs := map[string]bool{}
+	var collected []string // locations of the elements the filter targets collect (the part in front of the filter)
+	for _, tg := range c.Targets {
+		plain := true
+		for i, f := range tg {
+			if _, ok := f.(*jp.Filter); ok {
+				plain = false
+				if i == 1 {
+					collected = append(collected, "$")
+				} else {
+					for _, loc := range tg[:i].Locate(doc, 0) {
+						collected = append(collected, loc.String())
+					}
+				}
+				break
+			}
+		}
+		if plain {
+			if len(tg) == 1 {
+				plainLocs["$"] = true
+			}
+			for _, loc := range tg.Locate(doc, 0) {
+				plainLocs[loc.String()] = true
+			}
+		}
+	}
+	plainLeafMissing := func(o *matchOutcome) bool {
+		got := map[string]bool{}
+		for _, h := range o.Hits {
+			got[h.Path] = true
+		}
+		for _, w := range want {
+			switch w.Value.(type) {
+			case []any, map[string]any:
+				continue
+			}
+			inside := false // (a leaf inside a collected element is swallowed with it: the known finding)
+			for _, p := range collected {
+				if len(w.Path) > len(p) && strings.HasPrefix(w.Path, p) && (w.Path[len(p)] == '.' || w.Path[len(p)] == '[') {
+					inside = true
+				}
+			}
+			if plainLocs[w.Path] && !got[w.Path] && !inside {
+				return true
+			}
+		}
+		return false
+	}
 	vsRef := func(o *matchOutcome) {
 		cx.Exec()
 		if bad(o) {
@@ -511,12 +562,12 @@ func propC17(cx *sim.Ctx) {
 			}
 		}
 		if len(o.Hits) != len(want) {
-			cx.Fail(fmt.Sprintf("C17/reference/%s/count", o.Name), fmt.Sprintf("callbacks: %s ; parse-then-locate: %s", hitsString(o.Hits), hitsString(want)), attrs())
+			cx.Fail(fmt.Sprintf("C17/reference/%s/count", o.Name), fmt.Sprintf("callbacks: %s ; parse-then-locate: %s", hitsString(o.Hits), hitsString(want)), attrs("plain_target_leaf_missing", plainLeafMissing(o)))
 			return
 		}
 		for i := range want {
 			if o.Hits[i].Path != want[i].Path {
-				cx.Fail(fmt.Sprintf("C17/reference/%s/path-or-order", o.Name), fmt.Sprintf("callbacks: %s ; parse-then-locate: %s", hitsString(o.Hits), hitsString(want)), attrs())
+				cx.Fail(fmt.Sprintf("C17/reference/%s/path-or-order", o.Name), fmt.Sprintf("callbacks: %s ; parse-then-locate: %s", hitsString(o.Hits), hitsString(want)), attrs("plain_target_leaf_missing", plainLeafMissing(o)))
 				return
 			}
 			if ok, where := ref.SameValue(o.Hits[i].Value, want[i].Value); !ok {
